@@ -55,14 +55,14 @@ Neigh(C, kind, c) ==
 \* Pat(kind) = { (i, j) : exists cells c, c2 in Neigh(kind, c) with i in Dofs_test(c), j in Dofs_trial(c2) }, row-wise
 PatternFails(C) ==
   LET nc == NC(C)
-      TD == [c \in 1..nc |-> DofSet(C, C.test, c)]
-      RD == [c \in 1..nc |-> DofSet(C, C.trial, c)]
+      TD == TLCEval([c \in 1..nc |-> DofSet(C, C.test, c)])      \* TLCEval: evaluate once, not at every application
+      RD == TLCEval([c \in 1..nc |-> DofSet(C, C.trial, c)])
       nt == NumDofs(C, C.test)   nr == NumDofs(C, C.trial)
-      CellsAt == [i \in 0..(nt - 1) |-> {c \in 1..nc : i \in TD[c]}]
+      CellsAt == TLCEval([i \in 0..(nt - 1) |-> {c \in 1..nc : i \in TD[c]}])
       one(kind, g) ==
         IF ~CsrValid(g, nt, nr) THEN Fail(FALSE, "PatternValid", -1, kind)
         ELSE LET \* trial dofs reachable from a cell through its neighbourhood
-                 Reach == [c \in 1..nc |-> UNION {RD[c2] : c2 \in Neigh(C, kind, c)}]
+                 Reach == TLCEval([c \in 1..nc |-> UNION {RD[c2] : c2 \in Neigh(C, kind, c)}])
                  SpecRow(i) == IF kind = "diag" THEN {i} ELSE UNION {Reach[c] : c \in CellsAt[i]}
                  bad == {i \in 0..(nt - 1) : ~(StrictlyAscending(RowOf(g, i)) /\ RangeA(RowOf(g, i)) = SpecRow(i))}
              IN Fail(bad = {}, "PatternEqualsSpec", -1, kind)
@@ -75,9 +75,12 @@ PatternFails(C) ==
 \* Couplings \subseteq Pat_std: every (i,j) that received a non-zero value when the job was assembled into a FULL matrix
 CouplingsOK(C, coup) ==
   LET nc == NC(C)
-      TD == [c \in 1..nc |-> DofSet(C, C.test, c)]
-      RD == [c \in 1..nc |-> DofSet(C, C.trial, c)]
-  IN \A k \in 1..Len(coup) : \E c \in 1..nc : coup[k][1] \in TD[c] /\ coup[k][2] \in RD[c]
+      TD == TLCEval([c \in 1..nc |-> DofSet(C, C.test, c)])
+      RD == TLCEval([c \in 1..nc |-> DofSet(C, C.trial, c)])
+      nt == NumDofs(C, C.test)
+      \* Pat_std row-wise, computed once per job
+      Row == TLCEval([i \in 0..(nt - 1) |-> UNION {RD[c] : c \in {c2 \in 1..nc : i \in TD[c2]}}])
+  IN \A k \in 1..Len(coup) : coup[k][1] \in 0..(nt - 1) /\ coup[k][2] \in Row[coup[k][1]]
 
 \* ------------------------------------------------------------------------------------------------------
 \* (c) exact moments of the case's mesh
@@ -215,7 +218,7 @@ BlkJobFails(C, j, J, O) ==
 Verdict(C) ==
   IF ~ClassOK(C) THEN Fail(FALSE, "MACHINERY:MeshClass", -1, C.class)
   ELSE
-    LET mom == IF C.dim = 2 THEN [e \in PSet(2, 2) |-> MomPoly(C, e)] ELSE << >>
+    LET mom == IF C.dim = 2 THEN TLCEval([e \in PSet(2, 2) |-> MomPoly(C, e)]) ELSE << >>
         \* on 2D box meshes the two closed forms must agree (law of the specification itself)
         law == IF C.dim = 2 /\ C.class = "box"
                THEN Fail(\A e \in PSet(2, 2) : mom[e] * BoxScale(2) = MomBox(e) * PolyScale(C.G, TotDeg(e)), "MACHINERY:MomLaw", -1, "")
